@@ -46,6 +46,10 @@ CHECKS = {
             "Steps at and after an extreme state (reference fails / >6 iterations / voltages outside 0.85-1.15 without the live run flagging a failure) are inconclusive (start-point effects); one open known finding (0 vs NaN at out-of-service branches in batch-read results). " + COMMON_NOTE,
             "deterministic simulation: logical time steps, simulated clock and data source, failing run callback; replica with a fresh power flow per step as reference model",
             "DESIGN.md section 4, C12"),
+    "C13": ("Seeded search over controller sets (Discrete/Continuous tap control on 2W/3W transformers and both sides, ConstControl, probe controllers) with seeded levels/orders/in_service/start taps/bands/max_iter, planned failures of run invocations, repeated calls with edits in between; the recorded event history of every call is checked for outcome class, bounded termination, convergence and freshness of results on return, tap invariants after every control step, and call order.",
+            "One tap controller per transformer; check_each_level default; one open known finding (multi-level: lower level disturbed by a higher one). " + COMMON_NOTE,
+            "deterministic simulation: recorded controller/run event history with a failing run callback and probe controllers; invariants over the history + fresh power flow as reference",
+            "DESIGN.md section 4, C13"),
     "C14": ("Seeded search over meshed nets, N-1 case sets in seeded order (incl. own outage first), naturally failing and planned-failing cases, raise_errors/write_to_net, and exceptions injected inside the N-1 loop; extremes, causes and overload flags are recomputed from the per-case history recorded at the evaluation-function seam; N-0 equals a plain power flow; in_service flags restored on every exit; a second seeded case order gives the same extremes.",
             "The recorded per-case results are the ground truth (the property is about aggregation). " + COMMON_NOTE,
             "deterministic simulation: recording/failing callback at the evaluation-function seam, ExtremesModel over the recorded history, crash-point injection",
